@@ -62,7 +62,11 @@ def space(d):
 def fn_cases(draw):
     return {"size": draw(st.integers(1, 40)), "d": draw(st.integers(1, 40)),
             "n_start": draw(st.one_of(st.integers(0, 2**16 + 2**12 - 1), st.sampled_from([0, 1, 2**16 - 1, 2**16, 2**16 + 2**12 - 1]),
-                                      st.integers(0, 64)))}
+                                      st.integers(0, 64))),
+            # round 9: the caller's bases array may be of any integer / float dtype that holds the primes (the library's own
+            # table is int64); the unchanged code is exact for all of them
+            "dtype": draw(st.sampled_from(["int64", "int64", "int32", "int16", "uint16", "uint8", "int8", "uint32", "uint64",
+                                           "float64", "float32"]))}
 
 
 def check_fn(ctx: Ctx, case):
@@ -70,8 +74,11 @@ def check_fn(ctx: Ctx, case):
 
     sub = "halton_fn"
     size, d, n0 = case["size"], case["d"], case["n_start"]
-    ctx.count(sub, case, d >= 2 and (size >= 2 or n0 >= 2**16), [f"d>{(d - 1) // 10 * 10}"])
-    bases = np.array(PRIMES[:d])
+    dt = case.get("dtype", "int64")
+    if dt == "int8":
+        d = case["d"] = min(d, 31)  # 127 is the 31st prime
+    ctx.count(sub, case, d >= 2 and (size >= 2 or n0 >= 2**16), [f"d>{(d - 1) // 10 * 10}", f"bases:{dt}"])
+    bases = np.array(PRIMES[:d]).astype(dt)
     with guard(ctx, "C13/exception", sub, case):
         out = halton(sample_size=size, bases=bases, n_start=n0)
     if out.shape != (size, d):
